@@ -332,8 +332,17 @@ def spellings(a):
     return out
 
 
-def env_spellings(a):
+def env_spellings(a, math=False):
     from pylatexenc import macrospec as ms
+    if math:
+        # the same spellings for an environment whose body is in math mode
+        return [
+            ('EnvironmentSpec(n, a, is_math_mode=True)', lambda: ms.EnvironmentSpec('n', a, is_math_mode=True)),
+            ('EnvironmentSpec(n, args_parser=a, is_math_mode=True)', lambda: ms.EnvironmentSpec('n', args_parser=a, is_math_mode=True)),
+            ('EnvironmentSpec(n, args_parser=MacroStandardArgsParser(a), is_math_mode=True)',
+             lambda: ms.EnvironmentSpec('n', args_parser=ms.MacroStandardArgsParser(a), is_math_mode=True)),
+            ('std_environment(n, a, is_math_mode=True)', lambda: ms.std_environment('n', a, is_math_mode=True)),
+        ]
     return [
         ('EnvironmentSpec(n, a)', lambda: ms.EnvironmentSpec('n', a)),
         ('EnvironmentSpec(n, args_parser=a)', lambda: ms.EnvironmentSpec('n', args_parser=a)),
@@ -359,11 +368,11 @@ def parse_with_spec(spec, s, env=False):
     if not env:
         legacy = (canon.canon_node(n.nodeoptarg), tuple(canon.canon_node(x) for x in (n.nodeargs or [])))
     argspec = getattr(nodeargd, 'argspec', None)
-    return (canon.canon_node(nodes, modes=False), argspec, legacy)
+    return (canon.canon_node(nodes, modes=True), argspec, legacy)
 
 
-def check_spellings(a, inputs, acc, env=False):
-    sp = env_spellings(a) if env else spellings(a)
+def check_spellings(a, inputs, acc, env=False, math=False):
+    sp = env_spellings(a, math) if env else spellings(a)
     for w in inputs:
         s = ('\\begin{n}' + w + '\\end{n}') if env else ('\\n' + w)
         ref = None
@@ -423,6 +432,7 @@ def run_shard(shard, tier, acc):
         inputs = [''.join(w) for k in range(0, b['W'] + 1) for w in itertools.product(SPEC_ALPHA, repeat=k)]
         check_spellings(a, inputs, acc, env=False)
         check_spellings(a, inputs[:400], acc, env=True)
+        check_spellings(a, inputs[:60], acc, env=True, math=True)
         acc.sample(dict(argspec=a, inputs=len(inputs)), force=(a == '*[{'))
 
 
@@ -436,7 +446,7 @@ def replay(sub, case):
     else:
         s = case['s']
         w = s[len('\\begin{n}'):-len('\\end{n}')] if case['env'] else s[2:]
-        check_spellings(case['argspec'], [w], acc, env=case['env'])
+        check_spellings(case['argspec'], [w], acc, env=case['env'], math='is_math_mode' in case['spelling'])
         acc.violations = [v for v in acc.violations if v['case'].get('spelling') == case['spelling']]
     return acc.violations
 
